@@ -1,6 +1,8 @@
 """Cross-cutting rules, run for every property on the part of the program its anchors name (properties.jsonl anchors.files).
 
 U1 swapped arguments: a call passes two variables that carry the names of two of the callee's parameters, crossed.
+U3 ignored argument: a function never reads one of its parameters although a call site passes an explicit value for it.
+U4 option overwrite: isoquant.py assigns a declared command-line option only under a test that reads that same option.
 U2 option/enum confusion: an option that is converted with Enum[args.x] (so it holds the member NAME, a str) is compared with an
    Enum member - the comparison is constantly False / True.
 """
@@ -41,6 +43,9 @@ def run(prog, ctx, pid):
         ctx.fail("U1", c, q, src(c)[:110], "arguments %d and %d of this call are the variables `%s` and `%s`, which are the names of "
                  "parameters %d and %d of %s: the two values are passed crossed" % (i + 1, j + 1, src(c.args[i]), src(c.args[j]), j + 1, i + 1, cq))
     u2(prog, ctx, files)
+    u3(prog, ctx, files)
+    if "isoquant.py" in files:
+        u4(prog, ctx)
     if not hits:
         ctx.ok("U1", "anchor modules", "no crossed same-named arguments in calls in/into %d anchor-module functions" % n, nontrivial=False)
 
@@ -113,3 +118,127 @@ def u2(prog, ctx, files):
     if not n:
         ctx.ok("U2", "isoquant.py", "%d name-valued options (%s...) are never compared with Enum members" % (len(name_opts), ", ".join(sorted(name_opts)[:4])),
                nontrivial=False)
+
+
+# parameters that are not read by their function on today's tree, each confirmed by reading (interface conformance or dead parameter
+# whose value cannot matter); a parameter that is not listed, is never read, and receives an explicit value at a call site is reported
+UNREAD_OK = {
+    ("src/alignment_processor.py", "AbstractAlignmentStorage.add_alignment", "bam_index"): "base-class part of add_alignment; subclasses store the index",
+    ("src/assignment_io.py", "PrintAllFunctor.check", "assignment"): "functor interface: prints everything",
+    ("src/dataset_processor.py", "ReadAssignmentAggregator.finalize_aggregators", "sample"): "kept for the caller's signature; nothing per sample to finalise",
+    ("src/graph_based_model_construction.py", "GraphBasedModelConstructor.get_known_spliced_isoforms", "s"): "label used only in commented-out debug lines",
+    ("src/graph_based_model_construction.py", "GraphBasedModelConstructor.select_reference_gene", "transcript_range"): "selection is by introns only",
+    ("src/long_read_assigner.py", "LongReadAssigner.categorize_correct_unspliced_match", "combined_read_profile"): "sibling signature of the spliced variant",
+    ("src/long_read_assigner.py", "LongReadAssigner.detect_inconsistensies", "read_id"): "used only in commented-out debug lines",
+    ("src/long_read_counter.py", "ProfileFeatureCounter.convert_counts_to_tpm", "normalization"): "counter interface; exon/intron tables have no TPM",
+    ("src/read_groups.py", "AlignmentTagReadGrouper.get_group_id", "filename"): "grouper interface",
+    ("src/read_groups.py", "DefaultReadGrouper.get_group_id", "alignment"): "grouper interface",
+    ("src/read_groups.py", "DefaultReadGrouper.get_group_id", "filename"): "grouper interface",
+    ("src/read_groups.py", "FileNameGrouper.get_group_id", "alignment"): "grouper interface",
+    ("src/read_groups.py", "ReadIdSplitReadGrouper.get_group_id", "filename"): "grouper interface",
+    ("src/read_groups.py", "ReadTableGrouper.get_group_id", "filename"): "grouper interface",
+    ("isoquant.py", "TestMode.__call__", "namespace"): "argparse.Action interface",
+    ("isoquant.py", "TestMode.__call__", "values"): "argparse.Action interface",
+    ("isoquant.py", "TestMode.__call__", "option_string"): "argparse.Action interface",
+}
+
+
+def u3(prog, ctx, files):
+    ctx.rule("U3", "no function of the anchor modules ignores an argument: a parameter that is never read in a non-trivial body, is not in the "
+                   "table of confirmed interface / dead parameters, and gets an explicit value at some call site is reported")
+    calls_by_name = {}
+    for m, q, f in prog.all_functions():
+        for c in ast.walk(f):
+            if isinstance(c, ast.Call):
+                d = dotted(c.func)
+                if d:
+                    calls_by_name.setdefault(d.split(".")[-1], []).append((m, q, c))
+    n = 0
+    for m, q, f in prog.all_functions():
+        if m.rel not in files:
+            continue
+        if all(isinstance(s, (ast.Pass, ast.Raise)) or (isinstance(s, ast.Expr) and isinstance(s.value, ast.Constant)) for s in f.body):
+            continue
+        read = {x.id for x in ast.walk(f) if isinstance(x, ast.Name) and isinstance(x.ctx, ast.Load)}
+        for a in f.args.args + f.args.kwonlyargs:
+            p = a.arg
+            if p in ("self", "cls") or p.startswith("_") or p in read:
+                continue
+            n += 1
+            if (m.rel, q, p) in UNREAD_OK:
+                continue
+            setters = []
+            for cm, cq, c in calls_by_name.get(f.name if f.name != "__init__" else q.split(".")[0], []):
+                cands = argswap.callee_candidates(prog, c)
+                if not any(cf is f for _m, _q, cf in cands) and f.name != "__init__":
+                    continue
+                try:
+                    bound = argswap.bind_args(c, f, bound_method=True if f.name == "__init__" else None)
+                except Exception:
+                    continue
+                if p in bound:
+                    setters.append((cm, cq, c, bound[p]))
+            if setters:
+                cm, cq, c, v = setters[0]
+                ctx.fail("U3", f, q, "def %s(... %s ...)" % (f.name, p),
+                         "parameter `%s` of %s is never read, but %s (%s:%d) passes `%s` for it: the caller's request is silently ignored"
+                         % (p, q, cq, cm.rel, c.lineno, src(v)[:40]))
+    ctx.ok("U3", "anchor modules", "%d unread parameters in non-trivial functions of the anchor modules, all in the confirmed table or never set by a caller" % n,
+           nontrivial=False)
+
+
+# assignments to a command-line option that are not guarded by a test of the option itself, confirmed by reading
+OPTION_WRITES_OK = {
+    ("check_input_files", "no_junc_bed"): "no annotation -> there are no junctions to hand to the aligner; the flag only switches that off",
+    ("run_pipeline", "index"): "the aligner index built by this run replaces an absent / given one for the mapping stage only",
+}
+
+
+def declared_options(prog):
+    m = prog.module("isoquant.py")
+    opts = set()
+    for c in ast.walk(m.tree):
+        if isinstance(c, ast.Call) and c.args:
+            for a in c.args:
+                if isinstance(a, ast.Constant) and isinstance(a.value, str) and a.value.startswith("--"):
+                    opts.add(a.value[2:].replace("-", "_"))
+            for k in c.keywords:
+                if k.arg == "dest" and isinstance(k.value, ast.Constant):
+                    opts.add(k.value.value)
+    return opts
+
+
+def u4(prog, ctx):
+    from ..engine import flow
+    ctx.rule("U4", "in isoquant.py every assignment to args.<declared command-line option> is controlled by a test that reads args.<that option> "
+                   "(defaulting `is None`, normalising, consistency repair) or is in the table of confirmed exceptions: what the user chose is "
+                   "never overwritten blindly")
+    opts = declared_options(prog)
+    if len(opts) < 40:
+        from ..engine.program import AnalysisError
+        raise AnalysisError("isoquant.py: only %d declared options found (parser construction was restructured)" % len(opts))
+    m = prog.module("isoquant.py")
+    n = 0
+    for q, f in sorted(m.functions.items()):
+        for st in walk_no_nested(f):
+            if not isinstance(st, (ast.Assign, ast.AugAssign)):
+                continue
+            for t in (st.targets if isinstance(st, ast.Assign) else [st.target]):
+                d = dotted(t)
+                if not (d and d.startswith("args.") and d[5:] in opts):
+                    continue
+                n += 1
+                opt = d[5:]
+                if (q, opt) in OPTION_WRITES_OK:
+                    continue
+                reads = False
+                for g in flow.guards_of(st, stop=f):
+                    for x in ast.walk(g.test):
+                        if (isinstance(x, ast.Attribute) and dotted(x) == d) or (isinstance(x, ast.Constant) and x.value == opt):
+                            reads = True
+                if not reads:
+                    ctx.fail("U4", st, q, src(st)[:90], "the command-line option --%s is assigned here without any test of its current value: a value "
+                             "given by the user is overwritten (the options are defaulted with `if args.%s is None`)" % (opt, opt))
+    ctx.ok("U4", "isoquant.py", "%d assignments to declared options, all guarded by a test of the same option or in the confirmed table" % n,
+           nontrivial=False)
+    ctx.floor("U4", "assignments to declared options", n, 12)
